@@ -98,7 +98,12 @@ impl std::str::FromStr for PatchHeader {
     type Err = String;
 
     fn from_str(s: &str) -> Result<Self, Self::Err> {
-        let paragraph = Paragraph::from_str(s).map_err(|e| e.to_string())?;
+        // A header without any field is printed as the empty string
+        let paragraph = if s.trim().is_empty() {
+            Paragraph::new()
+        } else {
+            Paragraph::from_str(s).map_err(|e| e.to_string())?
+        };
         let mut header = PatchHeader::from_paragraph(&paragraph)?;
         if header.author.is_none() {
             header.author = paragraph.get("From").map(|v| v.to_string());
